@@ -27,6 +27,30 @@ theorem abs_rnd_ge {x t : ℝ} (ht : Rep (F := F) t) (h : t ≤ |x|) : t ≤ |rn
     have h2 : t ≤ -rnd (F := F) x := by linarith
     exact le_trans h2 (neg_le_abs _)
 
+/-- rounding never moves a value past a representable bound -/
+theorem abs_rnd_le {x t : ℝ} (ht : Rep (F := F) t) (h : |x| ≤ t) : |rnd (F := F) x| ≤ t := by
+  rw [abs_le] at h ⊢
+  have h1 := rnd_mono (F := F) h.2
+  have h2 := rnd_mono (F := F) h.1
+  rw [rnd_rep ht] at h1
+  rw [rnd_rep (rep_neg ht)] at h2
+  exact ⟨h2, h1⟩
+
+theorem rep_abs_val {m : F} (hm : Fin m) : Rep (F := F) |val m| := by
+  rcases le_total 0 (val m) with h | h
+  · rw [abs_of_nonneg h]; exact rep_val hm
+  · rw [abs_of_nonpos h]; exact rep_neg (rep_val hm)
+
+/-- a product with a factor of absolute value at most 1 is finite and no larger than the other factor -/
+theorem fmul_le_one {m c : F} (hm : Fin m) (hc : Fin c) (hc1 : |val c| ≤ 1) :
+    Fin (fmul m c) ∧ |val (fmul m c)| ≤ |val m| := by
+  have hle : |val m * val c| ≤ |val m| := by
+    rw [abs_mul]
+    calc |val m| * |val c| ≤ |val m| * 1 := mul_le_mul_of_nonneg_left hc1 (abs_nonneg _)
+      _ = |val m| := mul_one _
+  obtain ⟨hf, hv⟩ := fmul_spec hm hc (inRange_mono hle (inRange_val hm))
+  exact ⟨hf, by rw [hv]; exact abs_rnd_le (rep_abs_val hm) hle⟩
+
 /-- a threshold test `(r - c).abs() < t` that succeeds certifies the exact inequality -/
 theorem near_of_test {r c t : F} (hr : Fin r) (hc : Fin c) (ht : Fin t)
     (hrange : InRange (F := F) (val r - val c))
